@@ -57,6 +57,8 @@ def gen_seq(ch):
     sc.ops = ops
     sc.falsy_inst = ch.chance(1, 4)
     sc.owner_kind = ch.weighted([4, 1, 1])
+    # what the getter returns: a fresh object unlike any other | fresh objects that all compare equal
+    sc.value_kind = ch.weighted([3, 1])
     return sc
 
 
@@ -84,6 +86,11 @@ def make_class(sc, sim, runs, lock_type, state):
                 rec["exc"] = GETTER_ERRORS[sc.fault_kind % len(GETTER_ERRORS)]("getter%d" % len(runs))
                 raise rec["exc"]
             value = ["value", self.iid, (runs if rec in runs else state.other_runs).index(rec)]
+            vk = getattr(sc, "value_kind", 0)
+            if vk == 1:
+                value = ["value", self.iid]  # equal to what every other run of this instance returns - another object
+            elif vk == 2 and rec in runs and runs.index(rec) == sc.none_run:
+                value = None  # one run's value is None: a value like any other
             rec["value"] = value
             rec["status"] = "ok"
             rec["end"] = state.tick()
@@ -305,7 +312,7 @@ def run_seq(sc, st, ctx, out, sim):
     if 3 in kinds and len(runs) >= 2:
         out.probes["recompute_after_del"] = 1
     out.nontrivial = hit and (3 in kinds or "getter_failed" in out.probes)
-    out.shape = ("seq", sc.lock, tuple(sc.ops))
+    out.shape = ("seq", sc.lock, sc.value_kind, tuple(sc.ops))
     if ctx.want_sample:
         out.sample = {"mode": "sequential", "lock": sc.lock,
                       "ops": [(("await", "take", "await_taken", "del", "arm", "await_temp")[k], a, b) for k, a, b in sc.ops],
@@ -344,6 +351,10 @@ def gen_conc(ch):
     sc.owner_kind = ch.weighted([4, 1, 1])
     # a bystander task uses the same property on ANOTHER instance meanwhile (await / del / await ...)
     sc.bystander = [ch.draw(3) for _ in range(ch.between(1, 4))] if ch.chance(1, 3) else None
+    # what the getter returns: a fresh object unlike any other | fresh objects that all compare equal | None from the
+    # n-th run (and fresh objects from the others)
+    sc.value_kind = ch.weighted([3, 1, 1])
+    sc.none_run = ch.draw(3)
     return sc
 
 
@@ -453,6 +464,7 @@ def run_conc(sc, st, ctx, out, sim):
                 "bystander_on_another_instance": sc.bystander,
                 "fail_first": sc.fail_first,
                 "cancel": {"task": sc.cancel, "fired_at": sim.cancel_fired_at} if sc.cancel is not None else None,
+                "getter_values": ("distinct", "all equal, distinct objects", "None from run %d" % sc.none_run)[sc.value_kind],
                 "getter_runs": [{k: (repr(v) if k == "value" else v) for k, v in r.items()} for r in runs],
                 "awaits": [[a[0], a[1], a[2], a[3], repr(a[4])] for a in awaits], "del_ticks": dels,
                 "interleaving": [(t >> 2, ("pause", "sleep", "lock_wait", "done")[t & 3]) for t in sim.trace][:150]}
@@ -547,6 +559,12 @@ def run_conc(sc, st, ctx, out, sim):
                 # a computation begun after the last deletion returned a value: it is cached (a sibling run that
                 # failed or was cancelled later caches nothing, it does not un-cache either)
                 out.violate("C12.computed_value_not_cached", sig, dict(describe(), post=repr(post)))
+            elif any(r["status"] == "ok" for r in computed_since) and not any(
+                    r["status"] == "ok" and r["value"] is post[0] for r in computed_since):
+                # ... and what is cached is the value of such a computation: one that was already in flight when the
+                # property was deleted must not put its value over it (with or without a lock)
+                out.violate("C12.value_of_a_run_from_before_the_deletion_cached_over_a_later_one", sig,
+                            dict(describe(), post=repr(post), last_deletion=last_del))
     if sim.cancel_sent is not None:
         out.fault_free = False
         out.faults["cancel"] = 1
@@ -562,7 +580,7 @@ def run_conc(sc, st, ctx, out, sim):
         if any(r["start"] > dels[0] for r in runs):
             out.probes["recompute_after_del"] = 1
     out.nontrivial = bool(out.probes.get("arrival_during_compute"))
-    out.shape = ("conc", sc.backend, sc.lock, tuple(tuple(o) for ops in sc.progs for o in ops), tuple(sc.deleter or ()),
+    out.shape = ("conc", sc.backend, sc.value_kind, sc.none_run if sc.value_kind == 2 else None, sc.lock, tuple(tuple(o) for ops in sc.progs for o in ops), tuple(sc.deleter or ()),
                  sc.fail_first, sc.cancel, hash(tuple(sim.trace)))
     if ctx.want_sample:
         out.sample = describe()
